@@ -3,8 +3,8 @@
 
    Statements are about Model/PkgAuth.v: expandPackage with verifyExpanded (fix
    6d335fb), ExpandApk's per-file check, cachedPackage / cachePackage, the
-   process-wide memo of expanded packages keyed by URL + "@" + checksum string
-   (fix 9459281), and the lazy and streaming installs. [b64] is
+   process-wide memo of expanded packages keyed by the pair (URL, checksum
+   string) (fixes 9459281, d69e0fd), and the lazy and streaming installs. [b64] is
    base64.StdEncoding.DecodeString, universally quantified like the hashes.
    SHA-1 and SHA-256 are universally quantified functions: the chain theorems
    speak about equality of digests; the consequence for bytes
@@ -27,16 +27,15 @@ Proof.
 Qed.
 Print Assumptions c05_chain_no_cache.
 
-(* With a cache, for every request whose checksum string contains no '@' (every
-   string base64 accepts, so every checksum an index entry can carry): if the
-   process memo and the cache directory satisfy their invariants and an existing
-   cache destination holds the same member (content addressing), every
-   successful expansion — fetched, served from the warm cache, or answered from
-   the memo — satisfies the chain, and the invariants are re-established; with
-   c05_initial_state this extends to every sequence of requests of a process and
-   every sequence of processes sharing a cache directory. *)
+(* With a cache: if the process memo and the cache directory satisfy their
+   invariants and an existing cache destination holds the same member (content
+   addressing), every successful expansion — fetched, served from the warm cache,
+   or answered from the memo — satisfies the chain, for EVERY handle, and the
+   invariants are re-established; with c05_initial_state this extends to every
+   sequence of requests of a process and every sequence of processes sharing a
+   cache directory. (Unconditional in the handle since the memo key is the pair
+   (URL, checksum string): fixes 9459281 and d69e0fd.) *)
 Theorem c05_chain : forall sha1 sha256 b64 m k h served r k' m',
-  b64_alphabet b64 -> no_at (h_chk h) = true ->
   memo_inv sha1 sha256 b64 m -> opt_cache_ok sha1 sha256 k -> opt_dst_same sha1 sha256 k served ->
   expand_package sha1 sha256 b64 m k h served = (r, k', m') ->
   (forall x, r = XOk x -> Chain sha1 sha256 b64 h x) /\ opt_cache_ok sha1 sha256 k' /\ memo_inv sha1 sha256 b64 m'.
@@ -48,21 +47,19 @@ Theorem c05_initial_state : forall sha1 sha256 b64,
 Proof. intros. split; [intros u r x H; discriminate H | apply empty_cache_ok]. Qed.
 Print Assumptions c05_initial_state.
 
-(* The side condition on the checksum string cannot be dropped (finding C05-F2):
-   the memo key joins URL and checksum with '@', so the requests
-   (URL "a@b", checksum "1") and (URL "a", checksum "b@1") share a key. After the
-   first succeeded, the second — whose checksum is not even base64 and which a
-   fresh expansion refuses — is answered with the first package. c05_chain is
-   therefore the `_partial` of the unrestricted statement; the missing part is
-   exactly this key collision. *)
-Theorem c05_chain_unrestricted_refuted :
-  exists r1 k1 m1 x k2 m2,
+(* the two fixed memo defects as regression witnesses: requests that the
+   URL-only key (C05-F1) resp. the joined URL@checksum key (C05-F2) identified
+   with an earlier successful one are kept apart by the pair key and refused *)
+Theorem c05_memo_key_separates :
+  (h_url wit_h1 ++ "@" ++ h_chk wit_h1 = h_url wit_h2 ++ "@" ++ h_chk wit_h2)%string /\
+  h_url wit_h1 = h_url wit_h3 /\
+  exists r1 k1 m1,
     expand_package idf idf wit_b64 [] (Some empty_cache) wit_h1 (Some wit_apk) = (r1, k1, m1) /\
-    expand_package idf idf wit_b64 m1 k1 wit_h2 None = (XOk x, k2, m2) /\
-    fst (expand_uncached idf idf wit_b64 k1 wit_h2 (Some wit_apk)) = XErr EVerify /\
-    ~ Chain idf idf wit_b64 wit_h2 x.
-Proof. exact memo_key_ambiguity_refutes_chain. Qed.
-Print Assumptions c05_chain_unrestricted_refuted.
+    (exists x, r1 = XOk x) /\
+    fst (fst (expand_package idf idf wit_b64 m1 k1 wit_h2 (Some wit_apk))) = XErr EVerify /\
+    fst (fst (expand_package idf idf wit_b64 m1 k1 wit_h3 (Some wit_apk))) = XErr EVerify.
+Proof. exact pair_key_separates. Qed.
+Print Assumptions c05_memo_key_separates.
 
 (* what gets installed is the regular files of the expanded data section, byte
    for byte, on both install paths *)
@@ -153,7 +150,7 @@ Definition ex_h : handle := {| h_url := "u"; h_chk := "Q11" |}.
 Example c05_genuine_installs :
   exists x k m, expand_package idf idf wit_b64 [] (Some empty_cache) ex_h (Some (ex_apk 1 ["09"] (SumSome [7]%N))) = (XOk x, Some k, m) /\
     install true x = Some [("etc/f", [7]%N)] /\
-    exists x', expand_package idf idf wit_b64 [] (Some k) ex_h None = (XOk x', Some k, [("u@Q11", XOk x')]) /\ x_dat x' = x_dat x.
+    exists x', expand_package idf idf wit_b64 [] (Some k) ex_h None = (XOk x', Some k, [(("u", "Q11"), XOk x')]) /\ x_dat x' = x_dat x.
 Proof. eexists _, _, _. split; [vm_compute; reflexivity|]. split; [vm_compute; reflexivity|]. eexists. split; vm_compute; reflexivity. Qed.
 
 (* each substitution is refused *)
@@ -163,13 +160,6 @@ Example c05_substitutions_refused :
   fst (expand_uncached idf idf wit_b64 None ex_h (Some (ex_apk 1 ["09"] (SumSome [8]%N)))) = XErr ESums /\     (* per-file checksum *)
   fst (expand_uncached idf idf wit_b64 None ex_h None) = XErr EFetch.
 Proof. repeat split; vm_compute; reflexivity. Qed.
-
-(* the hypotheses of c05_chain are satisfiable *)
-Example c05_chain_hypotheses : b64_alphabet wit_b64 /\ no_at (h_chk ex_h) = true.
-Proof.
-  split; [|reflexivity]. intros s H. unfold wit_b64 in H. destruct (String.eqb s "1") eqn:E; [|congruence].
-  apply String.eqb_eq in E; subst; reflexivity.
-Qed.
 
 (* a cache that something else wrote into is believed by name: the hit below
    returns control bytes [5] under the name of checksum [1] *)
